@@ -30,6 +30,7 @@ def run(project, rep):
     rep.run(S.s_r3_mutexes, schema, rep)
     rep.run(S.s_r6_constraints, schema, rep)
     rep.run(S.s_r6d_route_independent_constraints, schema, rep)
+    rep.run(S.s_r6e_all_equal_helper, schema, rep)
     from .. import rules_purity as E
     rep.run(E.e_r7_reiterable_class_tables, project, rep)
     rep.run(S.s_r10_per_class_tables, schema, rep)
@@ -37,6 +38,10 @@ def run(project, rep):
     from .. import rules_unknown as U
     rep.rule("F-R4b", "the declared order is checked against the document as it was parsed: class-specific groom() overrides do not re-sequence, add or remove children first (U-R9)")
     rep.run(U.u_r9_overrides_only_retag, schema, rep)
+    # an unknown tag in between changes nothing for the children after it: the reducer's unknown-tag branch hands back the
+    # accumulator it received (U-R1), and in the loop form no carried state is assigned on the way to it (U-R1b)
+    rep.run_only(("U-R1",), U.u_rules, schema, rep)
+    rep.run(U.u_r1b_loop_state_on_unknown_path, schema, rep)
     rep.run(F.f_r5_counting, schema, rep)
     rep.run(T.t_r2, project, rep)
     rep.run(T.t_r3, project, rep)
